@@ -137,6 +137,9 @@ var vfC01Shapes = [][2]string{
 	{"GEOMETRYCOLLECTION(GEOMETRYCOLLECTION(POLYGON((0 0,2 0,2 2,0 2,0 0))),GEOMETRYCOLLECTION(LINESTRING(1 1,5 1)))", "POLYGON((1 0,3 0,3 3,1 3,1 0))"},
 	{"LINESTRING(0 0,4 0,4 4,0 4,0 0)", "POLYGON((2 -1,6 -1,6 5,2 5,2 -1))"},
 	{"MULTIPOLYGON(((0 0,2 0,2 2,0 2,0 0)),((2 2,4 2,4 4,2 4,2 2)))", "POLYGON((1 1,3 1,3 3,1 3,1 1))"},
+	// a line that doubles back over itself and only then crosses the other operand
+	{"LINESTRING(0 0,4 0,0 0,0 5)", "POLYGON((-1 2,1 2,1 4,-1 4,-1 2))"},
+	{"LINESTRING(0 0,4 0,2 0,2 3)", "LINESTRING(1 2,3 2)"},
 	// operands that lie entirely on a coordinate axis (every X, or every Y, is zero)
 	{"POINT(0 1)", "POINT(0 2)"},
 	{"LINESTRING(0 0,0 1)", "LINESTRING(0 1,0 3)"},
